@@ -92,6 +92,14 @@ ASSUMPTIONS = [
     "Sequential.assign has no per-variant form (every variant receives the value as given): only scalar assignments "
     "are generated for Sequential; RedVAR variants are created by alter_num_variants only",
     "tolerance |got-ref| <= 1e-12 + 1e-9*max|ref| per compared array; NaN/inf patterns must agree exactly",
+    "only the square solution T, P, K, Z, H, D is compared: the triangular form (Ta, Pa, Ka, Za, Ua) is a Schur basis "
+    "that is not unique for repeated eigenvalues and flips on last-bit differences of the inputs; the filter "
+    "likelihood, which is computed from it, is basis-invariant and is compared",
+    "the base parameterisation must be determinate with margin by the harness's own eigenvalues and have a regular "
+    "steady state (about 12 % of the drawn specs are discarded, labelled model_not_in_domain); parameter values "
+    "assigned later are not filtered",
+    "kalman_filter / check_steady may raise for a degenerate parameterisation (e.g. singular forecast-error "
+    "covariance); the reference must then raise the same exception type",
 ]
 
 MAX_STEPS = 12
@@ -673,7 +681,8 @@ def _compare_structure(col, tag, a, b, where):
                         lambda: f"{where}: kinds {qa} became {qb}")
         ok &= col.check({n: g for n, _, g in qa} == {n: g for n, _, g in qb}, f"{tag}:log_status",
                         lambda: f"{where}: log status {qa} became {qb}")
-        ok &= col.check(qa == qb, f"{tag}:quantity_order", lambda: f"{where}: order {qa} became {qb}")
+        ok &= col.check([n for n, _, _ in qa] == [n for n, _, _ in qb], f"{tag}:quantity_order",
+                        lambda: f"{where}: order {[n for n, _, _ in qa]} became {[n for n, _, _ in qb]}")
     ok &= col.check(a["dynamic_equations"] == b["dynamic_equations"], f"{tag}:dynamic_equations",
                     lambda: f"{where}: dynamic equations {a['dynamic_equations']} became {b['dynamic_equations']}")
     ok &= col.check(a["steady_equations"] == b["steady_equations"], f"{tag}:steady_equations",
@@ -1416,7 +1425,10 @@ def _known_portable_transition_shocks(sub, case, bucket, message):
 
 def _known_portable_flags_lost(sub, case, bucket, message):
     """from_portable drops the linear/flat/deterministic flags (they are passed to ModelSource, which ignores them)."""
-    return bucket == "portable:flags"
+    if bucket == "portable:flags":
+        return True
+    # with the deterministic flag lost the recreated model grows std_ parameters
+    return bucket == "portable:names" and bool(case.get("deterministic")) and "std_" in message
 
 
 def _known_sequential_pickle(sub, case, bucket, message):
